@@ -1143,10 +1143,37 @@ def rule_i12(prog, rep, rid='I12'):
             if inrange:
                 return st - {v['_ref'][1]}
             return st
-        IN = {cfg.entry.id: frozenset()}
+        # ring cursors: variables wrapped to 0 under a comparison with maxslots (`if (++i >= maxslots) i = 0;`)
+        ring_cursors = set()
+        for y in walk(f.body):
+            if y.get('kind') == 'IfStmt':
+                ch = children(y)
+                cc = strip_parens(ch[0])
+                if cc.get('kind') == 'BinaryOperator' and cc.get('opcode') in ('>=', '==', '>') and canon(children(cc)[1]).endswith('maxslots'):
+                    for z in walk(ch[1]):
+                        if z.get('kind') == 'BinaryOperator' and z.get('opcode') == '=' and int_value(children(z)[1]) == 0:
+                            lz = strip(children(z)[0])
+                            if lz.get('kind') == 'DeclRefExpr' and (lz.get('_ref') or ('',))[0] in ('local', 'param'):
+                                v0 = strip(children(cc)[0])
+                                if v0.get('kind') == 'UnaryOperator':
+                                    v0 = strip(children(v0)[0])
+                                if canon(v0) == canon(lz):
+                                    ring_cursors.add(lz['_ref'][1])
+        # parameters that some caller passes an upward arithmetic expression for (`find_avail(tbl, idx + 1)`) may equal maxslots
+        tainted_params = set()
+        for g in prog.funcs_in(UNIT):
+            if g.body is None:
+                continue
+            for y in walk(g.body):
+                if y.get('kind') == 'CallExpr' and prog.callee_name(y) == f.name:
+                    for p_, a_ in zip(f.params, children(y)[1:]):
+                        if arithmetic(a_):
+                            tainted_params.add(p_.get('id'))
+        IN = {cfg.entry.id: frozenset(tainted_params)}
         work = [cfg.entry]
         bad = {}
         nuses = 0
+        stops = {}
         while work:
             n = work.pop()
             st = set(IN[n.id])
@@ -1164,6 +1191,17 @@ def rule_i12(prog, rep, rid='I12'):
                     uses[id(x)] = x
                     bad[id(x)] = (x, 'is an arithmetic expression that was never compared with maxslots')
             st = frozenset(st)
+            if n.kind == 'cond' and isinstance(n.ast, dict):
+                c_ = strip_parens(n.ast)
+                if c_.get('kind') == 'BinaryOperator' and c_.get('opcode') in ('==', '!='):
+                    l_, r_ = [strip(z) for z in children(c_)]
+                    if l_.get('kind') == 'DeclRefExpr' and r_.get('kind') == 'DeclRefExpr' and \
+                            (l_.get('_ref') or ('',))[0] in ('local', 'param') and (r_.get('_ref') or ('',))[0] in ('local', 'param'):
+                        for (cur, stop) in ((l_, r_), (r_, l_)):
+                            if cur['_ref'][1] in ring_cursors and stop['_ref'][1] not in ring_cursors:
+                                ent = stops.setdefault(n.id, [n, canon(cur), canon(stop), False])
+                                if stop['_ref'][1] in st:
+                                    ent[3] = True
             for (s, lab) in n.succs:
                 st2 = refine(n, lab, st)
                 old = IN.get(s.id)
@@ -1173,6 +1211,14 @@ def rule_i12(prog, rep, rid='I12'):
                 elif not st2 <= old:
                     IN[s.id] = old | st2
                     work.append(s)
+        for (n_, cur_, stop_, tainted_) in stops.values():
+            rep.instance(rid)
+            rep.oblige(rid, not tainted_, {'function': f.name, 'ring_stop': '%s vs %s' % (cur_, stop_), 'line': n_.line})
+            if tainted_:
+                rep.violation(rid, f, n_.line, 'ring-stop:%s' % stop_,
+                              '%s: the ring walk stops when the wrapped cursor %s meets %s, but %s may equal maxslots here (a caller '
+                              'passes index + 1 and it was not normalised): the cursor is wrapped to 0 and never meets it - the walk '
+                              'does not terminate on a full table' % (f.name, cur_, stop_, stop_))
         for k_, x in uses.items():
             rep.instance(rid)
             ok = k_ not in bad
